@@ -1096,6 +1096,23 @@ fire("c16-bare-frozenset-subtype-of-everything", "C16", TYPING,
 fire("c11-scatter-number-renaming-not-injective", "C11", TENSOR,
      "        if len({v.name for k, v in subs}) == len(subs):\n            return source\n", "        return source\n", "R11.9", "eager_scatter_number")
 
+
+# ---- R04.13, R15.12, R15.13
+BUILTIN2 = "funsor/ops/builtin.py"
+fire("c04-cat-part-start-formula-for-later-parts-only", "C04", TERMS,
+     "                if pos <= start:\n                    pstart = start - pos\n                else:\n                    # first index at or after pos that is congruent to start\n                    pstart = (start - pos) % step\n",
+     "                if step > 1:\n                    pstart = ((pos - start) // step) * step - (pos - start)\n                    pstart = pstart + step if pstart < 0 else pstart\n                else:\n                    pstart = max(start - pos, 0)\n",
+     "R04.13", "Cat.eager_subs")
+fire("c04-cat-part-stop-ignores-slice-stop", "C04", TERMS,
+     "                pstop = min(pos + psize, stop) - pos\n", "                pstop = psize\n", "R04.13", "Cat.eager_subs")
+silent("c04-s-cat-part-start-conditional-expression", "C04", TERMS,
+       "                if pos <= start:\n                    pstart = start - pos\n                else:\n                    # first index at or after pos that is congruent to start\n                    pstart = (start - pos) % step\n",
+       "                pstart = (start - pos) if pos <= start else (step - (pos - start) % step) % step\n")
+fire("c15-clamp-calls-its-bound-parameters", "C15", ARRAY,
+     "    if min is not None:\n        x = _max(x, min)\n    if max is not None:\n        x = _min(x, max)\n    return x\n", "    return min(max(x, min), max)\n", "R15.12", "clamp")
+fire("c15-invert-without-bool-implementation", "C15", BUILTIN2,
+     "@invert.register(bool)\ndef _invert_bool(x):\n    return not x  # operator.invert(True) is the integer -2\n", "", "R15.13", "invert")
+
 # ===== derived variants: must stay at the END of this file (they enumerate every rename() variant above) =====
 # `if c: A else: B` -> `if not c: B else: A` in the anchor functions (behaviour-preserving)
 def invert(prop, file, qual):
